@@ -772,6 +772,9 @@ def make_pedal_stop(direction):
 
 def do_directions(part, start, end, counter):
     result = []
+    # the numbers of wedges and dashes are given out in the order of time (at
+    # the end of this function): (time, phase, order, direction, label, element)
+    numbering = []
 
     # ending directions
     directions = part.iter_all(
@@ -792,12 +795,16 @@ def do_directions(part, start, end, counter):
         e1 = etree.SubElement(e0, "direction-type")
 
         if getattr(direction, "wedge", False):
-            number = range_number_from_counter(direction, "wedge", counter)
-            e2 = etree.SubElement(e1, "wedge", number="{}".format(number), type="stop")
+            e2 = etree.SubElement(e1, "wedge", number="0", type="stop")
+            numbering.append(
+                (direction.end.t, 0, len(numbering), direction, "wedge", e2)
+            )
 
         else:
-            number = range_number_from_counter(direction, "dashes", counter)
-            etree.SubElement(e1, "dashes", number="{}".format(number), type="stop")
+            e2 = etree.SubElement(e1, "dashes", number="0", type="stop")
+            numbering.append(
+                (direction.end.t, 0, len(numbering), direction, "dashes", e2)
+            )
 
         elem = (direction.end.t, None, e0)
         result.append(elem)
@@ -873,9 +880,9 @@ def do_directions(part, start, end, counter):
                 else:
                     wtype = "diminuendo"
 
-                number = range_number_from_counter(direction, "wedge", counter)
-                e2 = etree.SubElement(
-                    e1, "wedge", number="{}".format(number), type=wtype
+                e2 = etree.SubElement(e1, "wedge", number="0", type=wtype)
+                numbering.append(
+                    (direction.start.t, 1, len(numbering), direction, "wedge", e2)
                 )
 
             else:
@@ -887,9 +894,9 @@ def do_directions(part, start, end, counter):
                     and direction.end is not None
                 ):
                     e3 = etree.SubElement(e0, "direction-type")
-                    number = range_number_from_counter(direction, "dashes", counter)
-                    etree.SubElement(
-                        e3, "dashes", number="{}".format(number), type="start"
+                    e4 = etree.SubElement(e3, "dashes", number="0", type="start")
+                    numbering.append(
+                        (direction.start.t, 1, len(numbering), direction, "dashes", e4)
                     )
 
             if direction.staff is not None and direction.staff != 1:
@@ -909,16 +916,23 @@ def do_directions(part, start, end, counter):
                 e0 = etree.Element("direction")
                 e1 = etree.SubElement(e0, "direction-type")
                 if getattr(direction, "wedge", False):
-                    number = range_number_from_counter(direction, "wedge", counter)
-                    etree.SubElement(
-                        e1, "wedge", number="{}".format(number), type="stop"
+                    e2 = etree.SubElement(e1, "wedge", number="0", type="stop")
+                    numbering.append(
+                        (direction.end.t, 2, len(numbering), direction, "wedge", e2)
                     )
                 else:
-                    number = range_number_from_counter(direction, "dashes", counter)
-                    etree.SubElement(
-                        e1, "dashes", number="{}".format(number), type="stop"
+                    e2 = etree.SubElement(e1, "dashes", number="0", type="stop")
+                    numbering.append(
+                        (direction.end.t, 2, len(numbering), direction, "dashes", e2)
                     )
                 result.append((direction.end.t, None, e0))
+
+    # a start takes the smallest free number, a stop gives its number back: in
+    # the order of time (stops first), so that a wedge that starts and ends
+    # within this segment keeps its number while it is open
+    for _, _, _, direction, label, element in sorted(numbering, key=lambda x: x[:3]):
+        number = range_number_from_counter(direction, label, counter)
+        element.set("number", "{}".format(number))
 
     return result
 
